@@ -85,6 +85,18 @@ CLAIMS = {
         'technique': 'TLA+ lifecycle model checking + TLC-enumerated defect cases replayed into the real router in a child process',
         'design_ref': '5/C05',
     },
+    'C20': {
+        'level': 'model_checking',
+        'text': 'Auth.tla models the middleware chain with constants GENERATED FROM THE CODE (order of app.Use in main.go read by go/ast, route table walked off the real router); '
+                'TLC checks exhaustively NoAccessWithoutCreds, RejectedProperly (401, 400 only for malformed headers), RightPasses, UnregisteredNeverHandled, NoBypass for every '
+                'route x method x Authorization class/string up to the bounds x Accept-Encoding x Origin x CORS on/off. Every TLC case is replayed against the real in-process router '
+                '(real middlewares, common/writer/reader/view route tables, recording back-ends) and against the REAL BINARY in MODE=reader over HTTP with a TCP listener counting '
+                'ClickHouse connections (zero accepts for unauthenticated requests); both request logs are validated by TLC (Trace_Auth.tla).',
+        'note': 'in-process wiring replayed from main.go by AST; writer routes only in process (main() needs a native ClickHouse); view routes via stand-ins; a header "Basic <valid b64><junk>" '
+                'is accepted because the base64 error is ignored (needs the credentials, not counted as a bypass).',
+        'technique': 'TLA+ model checking (TLC) with constants generated from the code + replay into the in-process router and the real binary + TLC trace validation',
+        'design_ref': '5/C20',
+    },
 }
 
 NOT_YET = 'check not built yet in this round (planned, see DESIGN.md section 5); not claimed until its machinery runs'
